@@ -34,9 +34,10 @@ def handleLogs : List String → Option String
   | ["clientcmd", command, censor] => do
     let c ← decStr command
     let ca ← if censor == "*" then some none else censor.toNat?.map some
-    match clientCommandRecord c ca with
-    | none => pure "none"
-    | some r => pure (encStr r)
+    match clientCommandOutcome c ca with
+    | none => pure "EXC:ValueError"
+    | some none => pure "none"
+    | some (some r) => pure (encStr r)
   | ["clientline", line] => do
     let l ← decStr line
     match clientParseLine? l with
